@@ -969,6 +969,13 @@ class Normaliser:
                     for x in ast.walk(n.target):
                         if isinstance(x, ast.Name) and src:
                             item_of.setdefault(x.id, set()).update(src)
+                elif isinstance(n, ast.Assign):
+                    # a name bound inside these statements may stand for what its value is made of (`c_ = r` ... `c_[k] = v` changes r)
+                    src = _may_alias(n.value)
+                    for t_ in n.targets:
+                        for x in ast.walk(t_):
+                            if isinstance(x, ast.Name) and isinstance(x.ctx, ast.Store) and src - {x.id}:
+                                item_of.setdefault(x.id, set()).update(src - {x.id})
         seen_roots = set()
 
         def closed_root(r):
@@ -1148,7 +1155,56 @@ class Normaliser:
             rec(s)
         return out
 
+    def helper_impure(self, helper, depth=0) -> bool:
+        """does the body of a helper whose calls are seen through change anything (stores into objects, mutating methods, calls made for effect, impure builtins,
+        other such helpers)?"""
+        cache = self.__dict__.setdefault("_helper_impure", {})
+        key = id(helper)
+        if key in cache:
+            return cache[key]
+        cache[key] = True   # (recursion: assume the worst)
+        res = False
+        for x in ast.walk(helper):
+            if isinstance(x, ast.Call) and isinstance(x.func, ast.Attribute) and x.func.attr in MUTATORS:
+                res = True
+            elif isinstance(x, ast.Call) and isinstance(x.func, ast.Name) and x.func.id in IMPURE_FUNCS:
+                res = True
+            elif isinstance(x, (ast.Subscript, ast.Attribute)) and isinstance(x.ctx, (ast.Store, ast.Del)):
+                res = True
+            elif isinstance(x, ast.Expr) and isinstance(x.value, ast.Call):
+                res = True
+            elif isinstance(x, (ast.Yield, ast.YieldFrom, ast.Await, ast.Global, ast.Nonlocal)):
+                res = True
+            elif isinstance(x, ast.Call) and depth < 4:
+                h2 = self.called_helper(x)
+                if h2 is not None and h2 is not helper and self.helper_impure(h2, depth + 1):
+                    res = True
+            if res:
+                break
+        cache[key] = res
+        return res
+
+    def called_helper(self, call):
+        f = call.func
+        if isinstance(f, ast.Name) and f.id in self.helpers:
+            return self.helpers[f.id]
+        if isinstance(f, ast.Attribute) and isinstance(f.value, ast.Name) and f.value.id in ("self", "cls") and f.attr in self.methods:
+            return self.methods[f.attr]
+        return None
+
+    def calls_impure_helper(self, n) -> bool:
+        if not self.helpers and not self.methods:
+            return False
+        for x in ast.walk(n):
+            if isinstance(x, ast.Call):
+                h = self.called_helper(x)
+                if h is not None and self.helper_impure(h):
+                    return True
+        return False
+
     def pure(self, n) -> bool:
+        if self.calls_impure_helper(n):
+            return False
         for x in ast.walk(n):
             if isinstance(x, ast.Call) and isinstance(x.func, ast.Attribute) and x.func.attr in MUTATORS:
                 return False
@@ -1362,6 +1418,15 @@ class Normaliser:
                 eff.append(("import", ast.dump(s)))   # (only `from m import *` is left: the others were turned into bindings)
                 continue
             hdr = _header_exprs(s)
+            if hdr and any(self.calls_impure_helper(e_) for e_ in hdr):
+                # a helper that is seen through changes something (possibly a variable it closes over): everything computed so far is settled first
+                for nm_ in list(env):
+                    e_ = env[nm_]
+                    if not (isinstance(e_, ast.Name) and e_.id == OP + nm_) and not _reference_structure(e_) \
+                            and any(isinstance(x, (ast.Call, ast.Attribute, ast.Subscript)) for x in ast.walk(e_)):
+                        eff.extend(self.emit("bind", [e_], lambda fs, nm_=nm_: ("bind", self.vform(nm_), fs[0])))
+                        env[nm_] = ast.Name(id=OP + nm_, ctx=ast.Load())
+                self.decided = {}
             if hdr and any(isinstance(x, ast.Call) and isinstance(x.func, ast.Attribute) and x.func.attr in MUTATORS for e_ in hdr for x in ast.walk(e_)):
                 # an expression of this statement mutates an object (`u = ms.pop()`, `return (ms.append(1), t)`, `if stack.pop():`, `[c.add(1) for c in both]`):
                 # what was computed from that object so far is bound before it, not read from the changed object later
@@ -2902,6 +2967,11 @@ def _as_value(eff):
     return None
 
 
+def _literal_tuple(v, depth=0) -> bool:
+    return isinstance(v, ast.Tuple) and depth < 3 and all(
+        (isinstance(e, ast.Constant) and isinstance(e.value, (int, float, str)) and not isinstance(e.value, bool)) or _literal_tuple(e, depth + 1) for e in v.elts)
+
+
 def module_consts(tree) -> dict:
     """module-level names bound exactly once to a number literal or to a tuple of number / string literals"""
     counts, vals = {}, {}
@@ -2917,9 +2987,8 @@ def module_consts(tree) -> dict:
                 v = v.operand
             if isinstance(v, ast.Constant) and isinstance(v.value, (int, float)) and not isinstance(v.value, bool) and counts.get(s.targets[0].id) == 1:
                 vals[s.targets[0].id] = s.value
-            elif counts.get(s.targets[0].id) == 1 and isinstance(s.value, ast.Tuple) and s.value.elts and \
-                    all(isinstance(e, ast.Constant) and isinstance(e.value, (int, float, str)) and not isinstance(e.value, bool) for e in s.value.elts):
-                vals[s.targets[0].id] = s.value   # an immutable tuple of literals
+            elif counts.get(s.targets[0].id) == 1 and isinstance(s.value, ast.Tuple) and s.value.elts and _literal_tuple(s.value):
+                vals[s.targets[0].id] = s.value   # an immutable tuple of literals (possibly of such tuples)
     return vals
 
 
